@@ -34,6 +34,29 @@ func allLanguages() map[string]func() verifapi.Language {
 	}
 }
 
+// optionedLanguages: the same languages with every boolean output option switched on. A language's chain is a fixed
+// sequence of passes: `cog inspect --language L` shows the same normal form whatever the options of L are.
+func optionedLanguages() map[string]func() verifapi.Language {
+	return map[string]func() verifapi.Language{
+		"go": func() verifapi.Language {
+			return verifapi.NewGo(verifapi.GoConfig{PackageRoot: "example.com/gen", GenerateJSONMarshaller: true, GenerateStrictUnmarshaller: true,
+				GenerateEqual: true, GenerateValidate: true, SkipRuntime: true, SkipPostFormatting: true, AnyAsInterface: true, GenerateConverters: true})
+		},
+		"java": func() verifapi.Language {
+			return verifapi.NewJava(verifapi.JavaConfig{SkipRuntime: true, GenerateJSONMarshaller: true, GenerateBuilders: true, GenerateConverters: true})
+		},
+		"jsonschema": func() verifapi.Language { return verifapi.NewJSONSchema(verifapi.JSONSchemaConfig{Compact: true}) },
+		"openapi":    func() verifapi.Language { return verifapi.NewOpenAPI(verifapi.OpenAPIConfig{Compact: true}) },
+		"php":        func() verifapi.Language { return verifapi.NewPHP(verifapi.PHPConfig{GenerateJSONMarshaller: true}) },
+		"python": func() verifapi.Language {
+			return verifapi.NewPython(verifapi.PythonConfig{GenerateJSONMarshaller: true, SkipRuntime: true})
+		},
+		"typescript": func() verifapi.Language {
+			return verifapi.NewTypescript(verifapi.TypescriptConfig{SkipRuntime: true, SkipIndex: true, EnumsAsUnionTypes: true})
+		},
+	}
+}
+
 var langOrder = []string{"go", "java", "jsonschema", "openapi", "php", "python", "typescript"}
 
 // addEnumFacts decorates the members of named enum objects with the string
@@ -143,6 +166,7 @@ func c06Run(args []string) int {
 	stats := map[string]int{}
 	harnessErr := ""
 	langs := allLanguages()
+	optioned := optionedLanguages()
 	process := func(jb job) {
 		body := bytes.TrimSuffix(bytes.TrimSpace(jb.line[len(prefix):]), []byte(">>"))
 		var js string
@@ -168,6 +192,13 @@ func c06Run(args []string) int {
 				return
 			}
 			rec := J{"case": jb.n, "lang": lang, "shape": c["shape"], "leaf": c["leaf"], "pos": c["pos"], "err": false, "panic": "", "post": []any{}, "builders": []any{}}
+			// every other case (decided by the case itself, so that a replay makes the same choice) runs with the
+			// language's boolean options all switched on
+			mk, opts := langs[lang], "default"
+			if lf, ok := c["leaf"].(float64); ok && (int(lf)+len(jlist(c["shape"])))%2 == 1 {
+				mk, opts = optioned[lang], "all-on"
+			}
+			rec["opts"] = opts
 			func() {
 				defer func() {
 					if r := recover(); r != nil {
@@ -180,7 +211,7 @@ func c06Run(args []string) int {
 					panic(perr)
 				}
 				pipeline.Output.Builders = true
-				ctx, cerr := pipeline.ContextForLanguage(langs[lang](), schemas)
+				ctx, cerr := pipeline.ContextForLanguage(mk(), schemas)
 				if cerr != nil {
 					rec["err"] = true
 					rec["error"] = cerr.Error()
@@ -200,6 +231,7 @@ func c06Run(args []string) int {
 			w.Write(raw)
 			w.WriteByte('\n')
 			stats["records"]++
+			stats["opts/"+opts]++
 			if rec["err"] == true {
 				stats["errors/"+lang]++
 			}
